@@ -112,7 +112,7 @@ def _run_depth(tier, workdir):
     """C19 on the model: spec/PPGDepth.tla (size families, waves per call linear in the size)"""
     maxn = "14" if tier == "thorough" else "10"
     cfg = ("SPECIFICATION DSpec\nCONSTANTS\n  NJobs = %s\n  MaxN = %s\n"
-           '  Families = {"chain", "fanout", "fanin", "layers"}\n  GuardBase = 1500\n  GuardPerJob = 10\n'
+           '  Families = {"chain", "erun", "fanout", "fanin", "layers"}\n  GuardBase = 1500\n  GuardPerJob = 10\n'
            "INVARIANTS %s\nCHECK_DEADLOCK FALSE\n" % (maxn, maxn, " ".join(DEPTH_INVS)))
     key = hashlib.sha256((spec_hash() + cfg).encode()).hexdigest()[:16]
     cdir = os.path.join(SCRATCH, "mc")
